@@ -1006,3 +1006,56 @@ Proof.
       * eapply NoDup_app_not_in; [exact Hkr|exact (proj2 (follb_in _ _ _ _ H))|exact Hxr].
       * exact (IHr top y x P vP kP Hr H HP Hhd).
 Qed.
+
+(* ---------- the reading is a normal form: it has no adjacent text nodes, and it is the identity exactly on such stores ---------- *)
+
+Definition uhead_text (u : uforest) : bool := match u with UCons w _ _ => is_text_val w | UNil => false end.
+
+Fixpoint una_list (u : uforest) : bool :=
+  match u with UNil => true | UCons v _ r => negb (is_text_val v && uhead_text r) && una_list r end.
+
+Fixpoint una (u : uforest) : bool :=
+  match u with UNil => true | UCons _ k r => una_list k && una k && una r end.
+
+Lemma una_erase f : una_list (erase f) = na_list f /\ una (erase f) = na f.
+Proof.
+  induction f as [|i v k [IHk1 IHk2] r [IHr1 IHr2]]; [split; reflexivity|]. cbn [erase una_list una na_list na].
+  rewrite IHk2, IHr1, IHr2, IHk1. split; [|reflexivity]. destruct r; reflexivity.
+Qed.
+
+Lemma ucons_m_normal v k r : una_list r = true -> una_list (ucons_m v k r) = true.
+Proof.
+  intros H. destruct v as [|nm|a|t d|c|an av|p u];
+    try (unfold ucons_m; cbn [una_list is_text_val andb negb]; exact H).
+  unfold ucons_m. destruct r as [|w kw rw]; [reflexivity|].
+  destruct w as [|nm|b|t d|c|an av|p u];
+    cbn [una_list is_text_val uhead_text andb negb]; exact H.
+Qed.
+
+Lemma ucons_m_una v k r : una k = true -> una_list k = true -> una r = true -> una (ucons_m v k r) = true.
+Proof.
+  intros Hk Hlk Hr.
+  assert (una (UCons v k r) = true) as Hplain by (cbn [una]; rewrite Hk, Hlk, Hr; reflexivity).
+  destruct v as [|nm|a|t d|c|an av|p u]; try exact Hplain.
+  unfold ucons_m. destruct r as [|w kw rw]; [exact Hplain|].
+  destruct w as [|nm|b|t d|c|an av|p u]; try exact Hplain.
+  cbn [una] in *. apply andb_true_iff in Hr as [_ Hr]. rewrite Hk, Hlk, Hr. reflexivity.
+Qed.
+
+Lemma unormb_normal u : forall top, (top = false -> una_list (unormb top u) = true) /\ una (unormb top u) = true.
+Proof.
+  induction u as [|v k IHk r IHr]; intros top; [split; reflexivity|]. cbn [unormb].
+  destruct (IHk false) as [Hk1 Hk2]. specialize (Hk1 eq_refl). destruct top.
+  - split; [discriminate|]. cbn [una]. rewrite Hk1, Hk2. exact (proj2 (IHr true)).
+  - destruct (IHr false) as [Hr1 Hr2]. specialize (Hr1 eq_refl). split.
+    + intros _. apply ucons_m_normal. exact Hr1.
+    + apply ucons_m_una; assumption.
+Qed.
+
+(* a store is its own reading exactly when it has no adjacent text nodes *)
+Theorem reading_fixpoint f : unormb true (erase f) = erase f <-> na f = true.
+Proof.
+  split.
+  - intros H. rewrite <- (proj2 (una_erase f)), <- H. exact (proj2 (unormb_normal (erase f) true)).
+  - intros H. apply unorm_na; [discriminate|exact H].
+Qed.
